@@ -7,7 +7,13 @@ namespace Driver
 def opUpload (args : List SExp) : Option OpResult := do
   match args with
   | [.atom fault, _, _] =>
-    let want := if fault = "ok" then "closed nil 0" else "closed err 0"
+    -- `C18_close_result`: nil exactly when the transport finished with a 2xx answer; otherwise the failure — the
+    -- server's status when it answered, the transport's error when it did not
+    let want :=
+      if fault = "ok" || fault = "early2xx" then "closed nil 0"
+      else if fault = "early" then "closed http-412 0"
+      else if fault = "partial" then "closed http-507 0"
+      else "closed other 0"
     pure ⟨want, fun got =>
       if got = want then []
       else if got.startsWith "hang" then [("C18", "upload-does-not-terminate")]
